@@ -216,9 +216,10 @@ fn validate_command_part(command: &str) -> Result<(), CommandErrorKind> {
         return Err(CommandErrorKind::Empty);
     }
 
+    // MPD requires the command name to start with a letter
     if let Some((i, c)) = command
         .char_indices()
-        .find(|(_, c)| !is_valid_command_char(*c))
+        .find(|(i, c)| !is_valid_command_char(*c) || (*i == 0 && *c == '_'))
     {
         Err(CommandErrorKind::InvalidCharacter(i, c))
     } else if is_command_list_command(command) {
